@@ -176,6 +176,11 @@ def applyFault (hist : List Wire) (ch : Chan) : Fault → Option Chan
     else none
   | .close => some { ch with closed := true }
 
+/-- the nonce of the `j`-th frame after `n0` -/
+def nonceAt (n0 : UInt64) : Nat → UInt64
+  | 0 => n0
+  | j + 1 => nonceAt (Gen.Transport.incrementNonce n0) j
+
 /-! ### a whole direction, as driven by the correspondence harness -/
 
 structure Dir where
@@ -187,6 +192,14 @@ structure Dir where
 
 def Dir.init (key : Nat) : Dir :=
   { w := ⟨key, 0⟩, r := ⟨key, 0, []⟩, ch := ⟨[], false⟩, hist := [] }
+
+/-- a direction at the start of the SESSION: the encrypted part of the handshake has already used the
+first `k` nonces of this direction (the signature frame and the meta frame), and the session goes on
+with the same AEAD states — `NewHandshake` returns the very `EncryptedConn` it handshook on
+(generated fact `sessionKeepsHandshakeState`). A recorded handshake frame is therefore just an old
+frame of the same stream. -/
+def Dir.afterHandshake (key k : Nat) : Dir :=
+  { w := ⟨key, nonceAt 0 k⟩, r := ⟨key, nonceAt 0 k, []⟩, ch := ⟨[], false⟩, hist := [] }
 
 def Dir.write (d : Dir) (junk data : Bytes) : Dir × Nat × Nat :=
   let (w', ws, n) := d.w.write junk data
@@ -257,11 +270,6 @@ def written : List Op → Bytes
 def lcp [DecidableEq α] : List α → List α → Nat
   | a :: as, b :: bs => if a = b then lcp as bs + 1 else 0
   | _, _ => 0
-
-/-- the nonce of the `j`-th frame after `n0` -/
-def nonceAt (n0 : UInt64) : Nat → UInt64
-  | 0 => n0
-  | j + 1 => nonceAt (Gen.Transport.incrementNonce n0) j
 
 /-- the frames a writer puts on the wire for a sequence of writes `(padding, data)` -/
 def writeMany (w : Writer) : List (Bytes × Bytes) → Writer × List Wire
